@@ -538,9 +538,12 @@ def rule_B7(ctx: Ctx) -> None:
     na = X.assignments_to(f.node, "n_accessible_cells")
     ok = any(X.U(x) == "n_total_cells" for x in na)
     tot = X.assignments_to(f.node, "n_total_cells")
-    ok = ok and len(tot) == 1 and X.same_expr(tot[0], "int(np.prod(grid_shape))", "np.prod(grid_shape)", "int(grid_shape[0]*grid_shape[1])", "math.prod(grid_shape)", "int(math.prod(grid_shape))")
+    # np.prod / ndarray.prod accumulate in the platform integer; a product of two components (or math.prod) stays in the array's own element type and
+    # wraps for an int8 grid shape (the type the Coord alias prescribes) from 128 cells on
+    ok = ok and len(tot) == 1 and X.same_expr(tot[0], "int(np.prod(grid_shape))", "np.prod(grid_shape)", "int(grid_shape.prod())", "grid_shape.prod()")
     ctx.judge(f, ok, {"n_accessible_cells": [X.U(x) for x in na], "n_total_cells": [X.U(x) for x in tot]},
-              "accessible_cells=None resolves to the total number of cells = prod(grid_shape)")
+              "accessible_cells=None resolves to the total number of cells = np.prod(grid_shape) (accumulated in a wide integer)",
+              "the cell count wraps for narrow integer grid shapes: the search stops early and still records fully_connected=True")
     depth_guard = None
     for a in N.nf_atoms(N.boolean_nf(grow.test)):
         if a.diff is not None and any("current_tree_depth" in str(k) for k in a.diff):
@@ -650,12 +653,12 @@ class _Uniform:
         return not self._lt(p, True)
 
 
-def _generator_outcomes(index, name, shape, kwargs, max_depth, max_runs=6000):
+def _generator_outcomes(index, name, shape, kwargs, max_depth, max_runs=6000, n_samples=0):
     """every outcome of one generator call under all sequences of random draws (bounded by max_depth choice points):
     (complete results as (connection list data, generation_meta), raised exception names, pruned branches, undecided reason)"""
     from sa.absnp import MODELS, Arr, _full
     from sa.absobj import AbstractClass
-    from sa.choice import PRUNED, explore, models
+    from sa.choice import PRUNED, explore, models, sample
     from sa.fold import EvalRaised, Obj, Unknown
 
     def run(sc):
@@ -682,7 +685,8 @@ def _generator_outcomes(index, name, shape, kwargs, max_depth, max_runs=6000):
     done, raised, pruned, unk = [], [], 0, None
     t0 = _time.process_time()
     try:
-        for _, out in explore(run, max_runs=max_runs, max_depth=max_depth):
+        runs = sample(run, n_samples, seed=shape[0] * 31 + shape[1]) if n_samples else explore(run, max_runs=max_runs, max_depth=max_depth)
+        for _, out in runs:
             if _time.process_time() - t0 > 90:
                 raise Unknown("exploration budget (90 s of cpu time per case) exceeded")
             if out is PRUNED:
@@ -720,8 +724,9 @@ def _tree_job(index, job):
     "one (generator, grid, kwargs, depth) case of B10: deviations of its outcomes from 'a spanning tree of the requested grid'"
     from sa import absmaze as AM
 
-    name, shape, kwargs, depth, want = job
-    done, raised, pruned, unk = _generator_outcomes(index, name, shape, kwargs, depth)
+    name, shape, kwargs, depth, want = job[:5]
+    n_samples = job[5] if len(job) > 5 else 0
+    done, raised, pruned, unk = _generator_outcomes(index, name, shape, kwargs, depth, n_samples=n_samples)
     bad = []
     for cl, meta in done:
         g = _graph_of(cl, shape)
@@ -771,6 +776,12 @@ def rule_B10(ctx: Ctx) -> None:
         jobs.append(("gen_prim", g, {}, None, "tree"))
     for g, depth in [((2, 2), 9), ((2, 3), 8 if not thorough else 10), ((3, 2), 8 if not thorough else 10)]:
         jobs.append(("gen_wilson", g, {}, depth, "tree"))
+    # one-cell-wide corridors (a walk needs about n^2 steps there) exhaustively to a greater depth, and a reproducible sample of complete walks on
+    # grids whose walks are too deep to enumerate (loops closed on an earlier loop's cell need a 3x3 grid and a dozen steps)
+    for g, depth in [((1, 3), 13), ((3, 1), 13), ((1, 4), 12)]:
+        jobs.append(("gen_wilson", g, {}, depth, "tree"))
+    for g, n_s in [((3, 3), 120 if not thorough else 1500), ((3, 4), 60 if not thorough else 600), ((4, 4), 40 if not thorough else 400), ((1, 5), 80)]:
+        jobs.append(("gen_wilson", g, {}, None, "tree", n_s))
     for g in [(2, 2), (2, 3), (3, 2)]:
         jobs.append(("gen_percolation", g, {"p": 0.0}, None, "empty"))
         jobs.append(("gen_percolation", g, {"p": 1.0}, None, "full"))
